@@ -19,6 +19,7 @@ generators carry flags (avoid, avoid_multi, distinct) that construct around them
 from __future__ import annotations
 
 import copy
+import dataclasses
 import itertools
 import multiprocessing
 import os
@@ -95,7 +96,7 @@ VALS2 = ["v0", "v1"]
 FRESH = [f"~fresh{i}" for i in range(12)]
 # durations used by the HybridCache exploration alphabet: DUR[key][value index]; some ties on purpose
 DUR = {"a": [1.0, 2.0], "b": [1.0, 4.0], "c": [0.5, 2.0]}
-SEQ_KEYS = ["a", "b", ["tt", "tt"], 0, 1, ["t", 2], "d", ["a"], 7, "e"]  # JSON lists become tuples
+SEQ_KEYS = ["a", "b", ["tt", "tt"], {"hk": [1, 0]}, {"hk": [1, 1]}, 0, 1, ["t", 2], "d", ["a"]]  # JSON lists become tuples
 TOL = 1e-12
 
 
@@ -113,7 +114,17 @@ def exc_site(e: BaseException) -> str:
     return f"{type(e).__name__}@{last or 'outside-pipefunc'}"
 
 
+@dataclasses.dataclass(frozen=True)
+class HiddenKey:
+    """A hashable key whose printed form omits part of its state (two unequal keys print the same)."""
+
+    a: int
+    b: int = dataclasses.field(default=0, repr=False)
+
+
 def _key(k):
+    if isinstance(k, dict):
+        return HiddenKey(*k["hk"])
     return tuple(_key(x) for x in k) if isinstance(k, list) else k
 
 
